@@ -68,3 +68,52 @@ module_plan('C10', 400, 8000,
 module_plan('C11', 400, 8000,
             "random decorated modules, test profile (NAME at every position, look-alike keywords, equal-to-name arguments, nested "
             "sections); non-trivial = at least one test command")
+
+
+# ---- C20 -----------------------------------------------------------------------------------------------------------
+import s_rst
+
+
+def _c20_run(tier, seed, out, drv):
+    s_rst.rst_suite(seed, 1500 if tier == 'quick' else 40000, out, drv)
+
+
+def _c20_search(tier, seed, out, drv, dis):
+    s_rst.rst_suite(seed + 7919, 6000 if tier == 'quick' else 60000, out, drv, max_ops=40)
+
+
+PLANS['C20'] = dict(run=_c20_run, search=_c20_search, shrink=s_rst.shrink, replay=s_rst.replay, replay_kind='rst-history',
+                    rule="random API histories over handle paths (text incl. multi-line and leading-space paragraphs, field, bulleted/"
+                         "enumerated list, directive, option, title change on writer and directives, clear, serialise), nesting <= 5; "
+                         "non-trivial = >= 4 operations and at least one nested directive; purity = pickle equality around each to_text()",
+                    assumptions=["sections, doctests and simple tables of the writer API are outside the property's quantifier and not modelled",
+                                 "purity and repeatability of the Python object are established by the correspondence (pickle equality), not by a theorem"])
+
+
+# ---- tree-level properties ---------------------------------------------------------------------------------------------
+import s_treeprops
+
+
+def tree_plan(prop, quick, thorough, rule, assumptions=()):
+    def run(tier, seed, out, drv):
+        s_treeprops.tree_suite(prop, seed, quick if tier == 'quick' else thorough, out, drv, budget_s=120 if tier == 'quick' else 1500)
+    def search(tier, seed, out, drv, dis):
+        s_treeprops.tree_suite(prop, seed + 7919, (quick if tier == 'quick' else thorough) * 3, out, drv, budget_s=240 if tier == 'quick' else 1500)
+    PLANS[prop] = dict(run=run, search=search, replay=s_treeprops.replay(prop), replay_kind='tree', rule=rule, assumptions=list(assumptions))
+
+
+TREE_ASSUME = ["pathspec (gitwildmatch) is an oracle: exclusion bits are obtained by calling pathspec with exactly the strings CMinx builds",
+               "os.walk/scandir/makedirs/open and the file system are trusted; listing orders are imposed through a harness-side os.walk wrapper",
+               "symlinks, special files, non-ASCII case mappings in file names and trees that change during the run are not modelled"]
+tree_plan('C13', 150, 4000, "random directory trees (depth<=3, mixed-case extensions, dotted/dashed names, empty and non-CMake directories) x recursive x "
+          "auto-exclusion x prefixes x pattern sets x output locations (absolute, relative, nested in the input); non-trivial = at least 2 files written",
+          TREE_ASSUME)
+tree_plan('C14', 150, 4000, "as C13 with the closure profile (pattern-excluded, auto-excluded and emptied sub-directories); the oracle resolves every "
+          "toctree entry of every real index.rst and walks reachability from the top index; non-trivial = at least 2 files written", TREE_ASSUME)
+tree_plan('C15', 100, 2500, "random trees x pattern sets (bare names, trailing slash, *, **, absolute paths, negation, several patterns hitting adjacent "
+          "siblings or every CMake file of a directory) x 4 listing orders each; non-trivial = patterns present and at least 2 files written", TREE_ASSUME)
+tree_plan('C12', 150, 4000, "random trees and lone files x prefixes x separators (. / :: -) x both extension options x custom header lists x input spelled "
+          "absolute/relative/'.'; module doccomments named and unnamed; non-trivial = at least 2 files written", TREE_ASSUME)
+tree_plan('C18', 120, 3000, "random trees and lone files with output absolute / relative / nested in the input / pre-populated / absent (stdout), sandbox "
+          "snapshot (path, sha256) before and after; stdout compared with the pages of the -o run; non-trivial = at least 2 files written or a page printed",
+          TREE_ASSUME)
